@@ -97,7 +97,8 @@ Record summary := {
   s_buffers : list N; s_views : list view; s_accs : list accessor; s_meshes : list gmesh;
   s_nodes : list gnode; s_scenes : list (list N); s_scene : N;
   s_mats : list gmat; s_texs : list gtex; s_images : list string; s_samplers : list gsamp;
-  s_lights : list glight; s_used : list string; s_req : list string; s_root_exts : list string }.
+  s_lights : list glight; s_used : list string; s_req : list string; s_root_exts : list string;
+  s_version : string }.                                        (* asset.version (write.go defaultAsset) *)
 
 (* ------------------------------------------------------------------ scene (input) *)
 Record ptexture := { tx_ptr : N; tx_uri : string; tx_samp : option gsamp;
@@ -464,7 +465,8 @@ Definition to_summary (s : state) : summary :=
      s_scenes := [st_scene s]; s_scene := 0; s_mats := st_mats s; s_texs := x_texs (st_x s);
      s_images := x_images (st_x s); s_samplers := x_samplers (st_x s); s_lights := st_lights s;
      s_used := x_used (st_x s); s_req := x_req (st_x s);
-     s_root_exts := match st_lights s with [] => [] | _ => ["KHR_lights_punctual"%string] end |}.
+     s_root_exts := match st_lights s with [] => [] | _ => ["KHR_lights_punctual"%string] end;
+     s_version := "2.0" |}.
 
 (* the write fails (error return) when a material that has to be stored is invalid; the model of
    the error path is this predicate, [run] itself is total *)
@@ -721,7 +723,28 @@ Definition opt_listN_eqb := opt_eqb listN_eqb.
 Definition has_bounds (s : summary) (ai : N) : bool :=
   match nthN (s_accs s) ai with Some a => (len (a_min a) =? a_k a) && (len (a_max a) =? a_k a) | None => false end.
 
-Definition model_node_check (s : summary) (payload : option (list N)) (mo : pmodel) (nd : gnode) : list string :=
+(* the single primitive of the mesh a node refers to *)
+Definition node_prim (s : summary) (nd : gnode) : option gprim :=
+  match gn_mesh nd with
+  | None => None
+  | Some mi => match nthN (s_meshes s) mi with
+               | None => None
+               | Some gm => match gm_prims gm with [p] => Some p | _ => None end
+               end
+  end.
+
+(* bufferView.target of the views a primitive's accessors use: vertex attributes never live in an
+   ELEMENT_ARRAY_BUFFER (34963) view, indices never in an ARRAY_BUFFER (34962) view (absent = 0 is allowed) *)
+Definition acc_target (s : summary) (ai : N) : option N :=
+  do a <- nthN (s_accs s) ai; do vi <- a_view a; do v <- nthN (s_views s) vi; Some (v_target v).
+Definition targets_ok (s : summary) (p : gprim) : bool :=
+  forallb (fun kv => match acc_target s (snd kv) with Some t => negb (t =? 34963) | None => false end) (gp_attrs p)
+  && match gp_idx p with
+     | Some ii => match acc_target s ii with Some t => negb (t =? 34962) | None => false end
+     | None => true end.
+
+(* node j against model j: everything except the content of the material entry *)
+Definition node_geom_check (s : summary) (payload : option (list N)) (mo : pmodel) (nd : gnode) : list string :=
   key_if (String.eqb (gn_name nd) (mo_name mo)) "node-name"
   ++ key_if (opt_listN_eqb (gn_t nd) (mo_t mo) && opt_listN_eqb (gn_r nd) (mo_r mo) && opt_listN_eqb (gn_s nd) (mo_s mo)) "node-trs"
   ++ key_if (match gn_light nd with None => true | Some _ => false end) "node-kind"
@@ -757,10 +780,7 @@ Definition model_node_check (s : summary) (payload : option (list N)) (mo : pmod
                             | Some a => forallb (fun i => i + 1 <? 2 ^ (8 * code_size (a_comp a))) (me_idx m)
                             | None => false end
                         | None => false end) "index-width"
-             ++ key_if (match mo_mat mo, gp_mat p with
-                        | None, None => true
-                        | Some pm, Some gi => match nthN (s_mats s) gi with Some g => mat_matches s pm g | None => false end
-                        | _, _ => false end) "material-content"
+             ++ key_if (targets_ok s p) "view-target"
          | _ => ["primitive-count"%string]
          end
        end
@@ -777,6 +797,20 @@ Definition model_node_check (s : summary) (payload : option (list N)) (mo : pmod
                     | _, _, _ => false end
                  && str_in "EXT_mesh_gpu_instancing" (gn_exts nd)
              | _, _ => false end) "instances".
+
+(* ... and the material entry its primitive refers to (a missing mesh / primitive is reported above) *)
+Definition node_mat_check (s : summary) (mo : pmodel) (nd : gnode) : list string :=
+  match node_prim s nd with
+  | None => []
+  | Some p =>
+      key_if (match mo_mat mo, gp_mat p with
+              | None, None => true
+              | Some pm, Some gi => match nthN (s_mats s) gi with Some g => mat_matches s pm g | None => false end
+              | _, _ => false end) "material-content"
+  end.
+
+Definition model_node_check (s : summary) (payload : option (list N)) (mo : pmodel) (nd : gnode) : list string :=
+  node_geom_check s payload mo nd ++ node_mat_check s mo nd.
 
 Definition light_node_check (s : summary) (j : N) (l : plight) (nd : gnode) : list string :=
   key_if (optN_eqb (gn_light nd) (Some j) && opt_listN_eqb (gn_t nd) (Some (li_pos l))
@@ -858,7 +892,8 @@ Record obs := { o_sum : summary; o_payload : option (list N); o_bin_len : N; o_g
 Definition gltf_check_struct (sc : scene) (o : obs) : list string :=
   let s := o_sum o in
   let nlive := length (filter live (sc_models sc)) in
-  key_if (Nat.leb (length (s_buffers s)) 1) "buffer-count"
+  key_if (String.eqb (s_version s) "2.0") "asset-version"
+  ++ key_if (Nat.leb (length (s_buffers s)) 1) "buffer-count"
   ++ key_if (match s_buffers s, o_glb o with
              | [], _ => o_bin_len o =? 0
              | [b], None => o_bin_len o =? b
@@ -942,7 +977,8 @@ Definition summary_eqb (a b : summary) : bool :=
   && (s_scene a =? s_scene b) && list_eqb mat_eqb (s_mats a) (s_mats b)
   && list_eqb gtex_eqb (s_texs a) (s_texs b) && strs_eqb (s_images a) (s_images b)
   && list_eqb samp_eqb (s_samplers a) (s_samplers b) && list_eqb glight_eqb (s_lights a) (s_lights b)
-  && set_eqb (s_used a) (s_used b) && set_eqb (s_req a) (s_req b) && set_eqb (s_root_exts a) (s_root_exts b).
+  && set_eqb (s_used a) (s_used b) && set_eqb (s_req a) (s_req b) && set_eqb (s_root_exts a) (s_root_exts b)
+  && String.eqb (s_version a) (s_version b).
 (* the first field that differs, for diagnosis *)
 Definition summary_diff (a b : summary) : list string :=
   key_if (listN_eqb (s_buffers a) (s_buffers b)) "buffers" ++ key_if (list_eqb view_eqb (s_views a) (s_views b)) "views"
@@ -951,7 +987,8 @@ Definition summary_diff (a b : summary) : list string :=
   ++ key_if (list_eqb mat_eqb (s_mats a) (s_mats b)) "materials" ++ key_if (list_eqb gtex_eqb (s_texs a) (s_texs b)) "textures"
   ++ key_if (strs_eqb (s_images a) (s_images b)) "images" ++ key_if (list_eqb samp_eqb (s_samplers a) (s_samplers b)) "samplers"
   ++ key_if (list_eqb glight_eqb (s_lights a) (s_lights b)) "lights"
-  ++ key_if (set_eqb (s_used a) (s_used b) && set_eqb (s_req a) (s_req b) && set_eqb (s_root_exts a) (s_root_exts b)) "extensions".
+  ++ key_if (set_eqb (s_used a) (s_used b) && set_eqb (s_req a) (s_req b) && set_eqb (s_root_exts a) (s_root_exts b)) "extensions"
+  ++ key_if (String.eqb (s_version a) (s_version b)) "asset-version".
 Definition glb_eqb (a b : glbinfo) : bool :=
   (g_magic a =? g_magic b) && (g_version a =? g_version b) && (g_total a =? g_total b) && (g_actual a =? g_actual b)
   && list_eqb (fun x y => let '(p, q, r) := x in let '(p', q', r') := y in (p =? p') && (q =? q') && (r =? r'))
